@@ -228,6 +228,88 @@ def follow_links_race_scenarios(ctx):
         shutil.rmtree(base, ignore_errors=True)
 
 
+def stdin_lines_correspondence(ctx):
+    """config.rs input_paths (--stdin) against coq/StdinModel.v: directories named by arbitrary bytes (blanks, tabs, a CR inside or
+    at the end, bytes that are not UTF-8), each holding one file; generated inputs (LF / CRLF terminators, a last line with or
+    without terminator, names that do not exist) go to `fclones group --stdin --rf-over 0`; the directories whose file is listed
+    must be exactly the existing ones among the paths StdinModel.stdin_paths reads from the same bytes (evaluated by coqc)."""
+    import re
+    import shutil
+    import subprocess
+    core.build_fclones()
+    base = os.path.realpath(os.path.join(ctx.scratch, "stdin_lines"))
+    shutil.rmtree(base, ignore_errors=True)
+    top = os.path.join(base, "t").encode()
+    os.makedirs(top)
+    names = [b"a", b"b c", b"tab\t", b"sp ", b" lead", b"\xe9latin", b"caf\xc3\xa9", b"cr\rmid", b"x\r", b"x", b"y\r\r", b"#c", b"-d"]
+    for k, nm in enumerate(names):
+        os.makedirs(os.path.join(top, nm))
+        with open(os.path.join(top, nm, b"m"), "wb") as f:
+            f.write(b"marker %d" % k)
+    ghosts = [b"nowhere", b"a ", b"x\r\r\r", b"b  c"]
+    rng = ctx.rng.fork()
+    cases = []
+    for i in range(ctx.pick(40, 400)):
+        items = [rng.choice(names + ghosts) for _ in range(1 + rng.below(5))]
+        crlf = rng.chance(1, 3)
+        data = b""
+        expect = []
+        for j, it in enumerate(items):
+            last = j == len(items) - 1
+            term = b"" if (last and rng.chance(1, 3)) else (b"\r\n" if crlf else b"\n")
+            data += it + term
+            line = it + term
+            if line.endswith(b"\n"):
+                line = line[:-1]
+            if line.endswith(b"\r"):
+                line = line[:-1]
+            expect.append(line)
+        if not data.endswith(b"\n") and not items[-1]:
+            continue
+        rc, out, err = treegen.fclones(["group", "--stdin", "--rf-over", "0", "-f", "json"], cwd=top, env={"FCLONES_VERIF_DISK_KIND": "ssd"},
+                                       stdin=data, timeout=60)
+        ctx.count()
+        ctx.distinct(("stdin_lines", i, data), True)
+        ctx.bump("stdin_lines", "crlf" if crlf else "lf")
+        payload = {"scenario": "paths on --stdin as raw bytes", "stdin_hex": data.hex(), "stderr": err.decode("utf-8", "replace")[-300:],
+                   "replay": "cd %s && printf '<stdin_hex as bytes>' | fclones group --stdin --rf-over 0" % top.decode()}
+        if rc != 0:
+            ctx.violation({"kind": "run_failed", "variation": "stdin_lines"}, "fclones group --stdin failed (rc %d)" % rc, payload, found_input=True)
+            continue
+        groups = treegen.parse_json_report(out.decode("utf-8"))[1]
+        got = sorted({os.path.basename(os.path.dirname(p)) for g in groups for p in g["files"]})
+        want = sorted({e for e in expect if e in names})
+        if got != want:
+            payload.update(scanned=[x.hex() for x in got], expected=[x.hex() for x in want])
+            ctx.violation({"kind": "body_differs", "variation": "stdin_lines"},
+                          "the input paths taken from --stdin are not the lines of the input: scanned %r, lines name %r" % (got, want), payload, found_input=True)
+        cases.append((data, expect))
+    # the model on the same inputs
+    d = os.path.join(ctx.scratch, "stdin_model")
+    os.makedirs(d, exist_ok=True)
+    fmt = lambda b: "[" + "; ".join(str(x) for x in b) + "]"
+    with open(os.path.join(d, "StdinCases.v"), "w") as fh:
+        fh.write("From FV Require Import Base StdinModel.\nOpen Scope N_scope.\n")
+        fh.write("Definition eqb (a b : list (list N)) : bool := if list_eq_dec (list_eq_dec N.eq_dec) a b then true else false.\n")
+        fh.write("Definition cases : list (list N * list (list N)) := [\n" + ";\n".join(
+            "(%s, [%s])" % (fmt(dat), "; ".join(fmt(e) for e in ex)) for dat, ex in cases) + "].\n")
+        fh.write("Definition differing := map fst (filter (fun p => negb (eqb (stdin_paths (fst (snd p))) (snd (snd p)))) (combine (seq 0 (length cases)) cases)).\n")
+        fh.write("Eval vm_compute in (length cases, differing).\n")
+    p = subprocess.run(["timeout", "300", "coqc", "-noglob", "-Q", core.COQ, "FV", "StdinCases.v"], cwd=d, stdout=subprocess.PIPE, stderr=subprocess.PIPE)
+    o = p.stdout.decode().replace("\n", " ")
+    m = re.search(r"=\s*\((\d+)%nat,\s*(\[[^\]]*\])", o)
+    if p.returncode != 0 or not m or int(m.group(1)) != len(cases):
+        ctx.violation({"kind": "model_driver_failed"}, "coqc on the --stdin cases failed: %s" % (p.stderr.decode()[-400:] + o[-200:]), {}, found_input=False)
+        return
+    diff = [int(x.replace("%nat", "")) for x in m.group(2).strip("[]").split(";") if x.strip()]
+    ctx.extra["stdin_inputs_through_the_model"] = len(cases)
+    if diff:
+        dat, ex = cases[diff[0]]
+        ctx.violation({"kind": "stdin_model_differs"}, "StdinModel.stdin_paths reads other lines from %r than the harness expects (%r)" % (dat, ex),
+                      {"stdin_hex": dat.hex(), "correspondence": "StdinModel.stdin_paths vs the line reading the binary was judged by"}, found_input=False)
+    shutil.rmtree(base, ignore_errors=True)
+
+
 def run(ctx):
     ctx.rule = ("generated trees (duplicate classes over several roots, hard links, sizes around the 4 KiB prefix / 64 KiB "
                 "buffer / 64 KiB suffix threshold of the SSD pin) x variations; an evaluation is one run of the binary; a case "
@@ -356,6 +438,7 @@ def run(ctx):
     # input paths on argv and on --stdin: nested ones the outer walk does not reach, names that are not UTF-8 / end in white space
     from . import nested_rt
     nested_rt.nested_unreached_roots_check(ctx, ctx.pick(30, 300), "C13")
+    stdin_lines_correspondence(ctx)
     # the cache is a performance setting: files that join / leave a class by in-place rewrites between cached runs
     from . import midrun_rt
     midrun_rt.restore_older_check(ctx, ctx.pick(8, 100))
